@@ -8,10 +8,13 @@ import (
 	"crypto/sha512"
 	"errors"
 	"fmt"
+	"io"
 	"math/rand"
+	"net/url"
 	"os"
 	"path/filepath"
 	"runtime"
+	"strings"
 	"sync"
 	"sync/atomic"
 
@@ -301,6 +304,39 @@ func (m *MemStore) end2(op string, id desync.ChunkID, n, t0 int64, res string, t
 type ErrInjected struct{ Msg string }
 
 func (e ErrInjected) Error() string { return "injected: " + e.Msg }
+
+// EOFWrap is an injected fault whose chain ends in io.EOF (what an HTTP store returns when the server hangs up).
+type EOFWrap struct{ Msg string }
+
+func (e *EOFWrap) Error() string { return "injected: " + e.Msg + ": EOF" }
+func (e *EOFWrap) Unwrap() error { return io.EOF }
+
+// FaultErr returns an injected store error of the given kind: 0 a plain error value, 1 a bare io.EOF (legal for any
+// Store implementation; the casync protocol client returned one until 8f0685f), 2 an error wrapping io.EOF,
+// 3 a *url.Error holding io.EOF (connection closed without a response).
+func FaultErr(kind int, msg string) error {
+	switch kind % 4 {
+	case 1:
+		return io.EOF
+	case 2:
+		return &EOFWrap{Msg: msg}
+	case 3:
+		return &url.Error{Op: "Get", URL: "http://injected.fault/" + msg, Err: io.EOF}
+	}
+	return ErrInjected{Msg: msg}
+}
+
+// IsFault reports whether err is (or wraps) an injected fault of kind 0, 2 or 3. A bare io.EOF cannot be told from a
+// genuine end of data by identity: callers decide that case by position.
+func IsFault(err error) bool {
+	var a ErrInjected
+	var b *EOFWrap
+	var c *url.Error
+	if errors.As(err, &a) || errors.As(err, &b) {
+		return true
+	}
+	return errors.As(err, &c) && strings.HasPrefix(c.URL, "http://injected.fault/")
+}
 
 func (m *MemStore) GetChunk(id desync.ChunkID) (*desync.Chunk, error) {
 	n, t0, _ := m.begin("get", id)
